@@ -62,6 +62,14 @@ Record consts_facts := {
   (* supla_esp_input_set_active_triggers disarms the input timer and clears the click counter only together, inside the
      `prev_triggers != active_triggers` block — as Model.set_active_triggers does *)
   cf_sat : SAT_DISARM_GUARDED = 1 /\ SAT_RESET_GUARDED = 1;
+  (* source-shape pins (gen/grp_c12.py SHAPES): the guards the model transcribes occur in the source exactly in the expected form *)
+  cf_shapes :
+    [SHAPE_CALCFG_AUTH_EQ_1; SHAPE_CALCFG_NOT_AUTH; SHAPE_CALCFG_AUTH_USES; SHAPE_CALCFG_CMD_ENTER; SHAPE_CALCFG_CMD_RECAL; SHAPE_CALCFG_START;
+     SHAPE_LTIMER_HOLD_TEST; SHAPE_LTIMER_NOT_STARTED; SHAPE_LTIMER_ELSE_FACTORY; SHAPE_LTIMER_ACTIVE; SHAPE_LTIMER_HOLD_ENABLED;
+     SHAPE_ATIMER_HOLD_TEST; SHAPE_ATIMER_MULTICLICK_TEST; SHAPE_ATIMER_DELTA; SHAPE_LEGACY_COUNT_TEST; SHAPE_ADV_COUNT_TEST; SHAPE_ADV_TOGGLE_GUARD;
+     SHAPE_HOLD_PRED_CFG_BTN; SHAPE_HOLD_PRED_MONO; SHAPE_TOGGLE_PRED_CFG_BTN; SHAPE_START_GUARD; SHAPE_CFGMODE_START_GUARD; SHAPE_FACTORY_KEEPS_ID;
+     SHAPE_CFGINIT_VALID_TEST; SHAPE_BOOT_COND; SHAPE_SETCH_RECAL_FLAG; CHAIN_WINDOW_US]
+    = [1; 2; 3; 1; 2; 1;  1; 1; 1; 1; 1;  1; 1; 1; 1; 1; 1;  1; 1; 1; 1; 1; 3;  1; 1; 1; 2000000];
   cf_states : STATE_ACTIVE <> STATE_INACTIVE;
   cf_res : RES_UNAUTHORIZED <> RES_DONE /\ RES_UNAUTHORIZED <> RES_NOT_SUPPORTED }.
 Lemma consts_ok : consts_facts.
